@@ -59,7 +59,7 @@ class Contract:
                  raises=None, may_raise=(), defines=None, loops=None, ghosts=(), locals=None,
                  ghost_init=None, trusted=False, inline=False, note="", props=(),
                  ghost_params=None, result_name="result", lemmas=(), pure=True,
-                 must_raise=None, logs=None, map_keys=None, raise_allowed=None, ghost_results=None, call_site=True, silent=None, mode=None, callee_modes=None, callee_ensures=None):
+                 must_raise=None, logs=None, map_keys=None, raise_allowed=None, ghost_results=None, call_site=True, silent=None, mode=None, callee_modes=None, callee_ensures=None, clause_props=None):
         self.key = key
         self.inst = inst
         self.params = OrderedDict(params)
@@ -100,6 +100,14 @@ class Contract:
         # callee key -> prefixes of the callee's ensures names that this unit imports (fewer
         # hypotheses: sound; keeps large callers' VCs small).  Absent: all.
         self.callee_ensures = dict(callee_ensures or {})
+        # clause_props: prefix of an ensures-clause name -> the properties whose statement that clause
+        # carries.  A unit tagged with several properties proves clauses that belong to different
+        # statements (NoteEvent.from_parsed_data: lanes C02, sustain C03, hopo C04, star power C05 ...);
+        # a refuted postcondition clause is a violation only of the properties it is mapped to (a
+        # clause without a mapping belongs to every property of the unit).  Obligations that are not
+        # postcondition clauses (escapes, call preconditions, loop invariants, hints) are never
+        # attributed: they stay relevant to every property of the unit.
+        self.clause_props = dict(clause_props or {})
         self.native_oracle = None     # see contracts/oracles.py (bounded stand-in only)
         self.oracle_order = None
 
@@ -108,6 +116,16 @@ class Contract:
         if self.silent is not None:
             return self.silent
         return not any("_warnings" in t for _, t in self.ensures)
+
+    def clause_relevant(self, clause, prop):
+        """Is the ensures clause `clause` part of property `prop`'s statement?  (longest prefix wins)"""
+        if not prop or not self.clause_props:
+            return True
+        best = None
+        for pre in self.clause_props:
+            if clause.startswith(pre) and (best is None or len(pre) > len(best)):
+                best = pre
+        return best is None or prop in self.clause_props[best]
 
     @property
     def name(self):
